@@ -17,37 +17,48 @@
 (* The code shares nothing between Systems: each Options object owns its   *)
 (* list.  Sharing = "defaultList" is the design-level negative control: a  *)
 (* cached parser whose default --privacy list is handed out as is, so that *)
-(* all Systems built without a rule alias ONE list.                        *)
+(* all Systems built without a rule alias ONE list.  Sharing =             *)
+(* "classCache" is a second one: the answer cache is one dict for all      *)
+(* Systems, emptied whenever a System is created - harmless for Systems    *)
+(* used one after the other, wrong for two Systems alive at once (create   *)
+(* A, create B, ask A, ask B).                                             *)
+(* Every history is a state of its own (hist is part of the state): the    *)
+(* order of creations and queries is what matters here.                    *)
 (*                                                                         *)
-(* One behaviour per edge is printed (hist outside the VIEW) and replayed   *)
+(* Every history ending in a query is printed and replayed                 *)
 (* by harness/checks/c13.py in a forked child process with real Systems.   *)
 (***************************************************************************)
 EXTENDS Privacy, Json
 
-CONSTANTS MaxSystems, MaxSteps, Sharing    \* Sharing: "none" (the code) | "defaultList"
+CONSTANTS MaxSystems, MaxSteps, Sharing    \* Sharing: "none" (the code) | "defaultList" | "classCache"
 
 R(lv, pat) == [lv |-> lv, pat |-> pat]
 RuleA == R("HIDDEN", <<"a", ".", "c">>)                 \* hidden:a.c   (exact)
 RuleB == R("PRIVATE", <<"a", ".", "*">>)                \* private:a.*  (pattern)
 ArgLists == {<< >>, <<RuleB>>}                          \* what a System can be built from
 Appendable == {RuleA, RuleB}
-Names == {<<"a">>, <<"a", ".", "c">>}                   \* module a, class a.c in every System
+Names == {<<"a", ".", "c">>}                              \* the class a.c, present in every System (module a is never decided by these rules)
 
 VARIABLES sys,     \* sequence of [own: rules of this System, alias: does its list alias the shared default list, asked: BOOLEAN]
           shared,  \* the shared default list (control only; stays <<>> in the code's model)
+          cache,   \* answers remembered: set of [s, n, v]; a System only ever finds its own (s = 0: the shared dict of the control)
           steps, hist
-vars == <<sys, shared, steps, hist>>
-View == <<sys, shared, steps>>
+vars == <<sys, shared, cache, steps, hist>>
 
 \* the list System s consults
 Effective(s) == IF Sharing = "defaultList" /\ sys[s].alias THEN shared ELSE sys[s].own
 
-Init == sys = <<>> /\ shared = <<>> /\ steps = 0 /\ hist = <<>>
+CKey(s) == IF Sharing = "classCache" THEN 0 ELSE s
+Cached(s, n) == {e \in cache : e.s = CKey(s) /\ e.n = n}
+Answer(s, n) == IF Cached(s, n) # {} THEN (CHOOSE e \in Cached(s, n) : TRUE).v ELSE ImplPrivacy(n, Effective(s))
+
+Init == sys = <<>> /\ shared = <<>> /\ cache = {} /\ steps = 0 /\ hist = <<>>
 
 New(args) ==
   /\ Len(sys) < MaxSystems
   /\ sys' = Append(sys, [own |-> args, alias |-> args = <<>>, asked |-> FALSE])
   /\ hist' = Append(hist, [op |-> "new", s |-> Len(sys) + 1, rules |-> args, name |-> <<>>, got |-> "-", exp |-> "-"])
+  /\ cache' = IF Sharing = "classCache" THEN {} ELSE cache          \* (control: __init__ empties the one dict)
   /\ steps' = steps + 1 /\ UNCHANGED shared
 
 Append1(s, r) ==
@@ -56,12 +67,13 @@ Append1(s, r) ==
   /\ sys' = [sys EXCEPT ![s].own = Append(@, r)]
   /\ shared' = IF Sharing = "defaultList" /\ sys[s].alias THEN Append(shared, r) ELSE shared
   /\ hist' = Append(hist, [op |-> "append", s |-> s, rules |-> <<r>>, name |-> <<>>, got |-> "-", exp |-> "-"])
-  /\ steps' = steps + 1
+  /\ steps' = steps + 1 /\ UNCHANGED cache
 
 Query(s, n) ==
   /\ sys' = [sys EXCEPT ![s].asked = TRUE]
   /\ hist' = Append(hist, [op |-> "query", s |-> s, rules |-> <<>>, name |-> n,
-                           got |-> ImplPrivacy(n, Effective(s)), exp |-> PrivacyOf(n, sys[s].own)])
+                           got |-> Answer(s, n), exp |-> PrivacyOf(n, sys[s].own)])
+  /\ cache' = cache \cup {[s |-> CKey(s), n |-> n, v |-> Answer(s, n)]}
   /\ steps' = steps + 1 /\ UNCHANGED shared
 
 Next == \/ \E args \in ArgLists : New(args)
@@ -71,7 +83,9 @@ Spec == Init /\ [][Next]_vars
 Bound == steps <= MaxSteps
 
 \* the property: every System answers from its own rules
-OwnRulesOnly == \A s \in 1..Len(sys), n \in Names : ImplPrivacy(n, Effective(s)) = PrivacyOf(n, sys[s].own)
+\* (for a System that was asked already the rules are final, so a remembered answer must still be the right one)
+OwnRulesOnly == \A s \in 1..Len(sys), n \in Names :
+                   (sys[s].asked \/ Cached(s, n) = {}) => Answer(s, n) = PrivacyOf(n, sys[s].own)
 
-EmitEdge == PrintT(ToJson([h |-> hist']))
+Emit == (hist # <<>> /\ hist[Len(hist)].op = "query") => PrintT(ToJson([h |-> hist]))
 =============================================================================
